@@ -54,7 +54,7 @@ CLAIMED = {
 ADDENDA = {
  'C01': 'Round 5: ordered containers keyed by smart pointers; a queued timer is dequeued on every path of cancel(). Round 7: every copy out of a packet is bounded by what is left of the payload behind the read position.',
  'C02': 'Round 5: every jump of the clock is measured from a fresh reading of the clock (reaching-events analysis over definitions of the local and advances). Audit batch 3: with the stop flag set run() reaches neither the poll from its entry nor the clock advance from the poll.',
- 'C03': 'Round 5: fire() is only called on a dequeued timer; a constructor that marks the timer pending queues it.',
+ 'C03': 'Round 5: fire() is only called on a dequeued timer; a constructor that marks the timer pending queues it. Later: equal expiries are ordered by an arming sequence - add_timer() inserts inside the equal range in front of the first entry armed later; the sequence is written only by expires_at/expires_after from a growing counter before the timer is queued.',
  'C05': 'Round 5: segments, retransmissions and ACKs are sent on the hops of their own direction (channel orientation); scatter reads re-assign the buffer offset whenever the buffer cursor is stepped. Round 7: the nothing-copied-yet test in front of an error report reads a count that only grows. Audit batch 3: the size of a user buffer is not converted to int before it is bounded.',
  'C07': 'Round 5: acceptor::close(ec) empties the accept queue; registry entries are re-pointed only by their owner. Audit rounds: the listening predicate is decided by value for the limits listen() stores; an abandoned connect notifies the other end, the acceptor forgets it, a detached forwarder refuses a SYN; acceptor::open() starts not-listening on every path. Round 7: the two ends of a channel are told apart by their whole endpoints; the destructor gives up an outstanding connect before it resets the channel. Audit batch 3: the endpoint getters clear ec on success; every negative backlog becomes the default before listen() stores it; a connect that fails by packet re-dispatches the operations parked behind it.',
  'C08': 'Round 5: the pacing cursor is pulled up to the clock before it is advanced; the NAT rewrite of the source is unconditional; the sender prepends its whole outgoing route. Audit rounds: every synchronous entry point with an error_code out-parameter assigns it on every path (recursive through callees, correlated bool helpers followed by value). Round 7: the receive queue\'s limit admits the largest datagram on an empty queue. Audit batch 3: the 65535 test and the receive copy see un-narrowed sizes.',
